@@ -319,6 +319,7 @@ func c01Matrix(r *vc.Run, n int) []c01Scenario {
 			MaxRetry:            rng.Intn(3),
 			MaxRedirect:         []int{20, 3, 1}[rng.Intn(3)],
 			WARCPoolSize:        1 + rng.Intn(2),
+			WARCWriteAsync:      i%5 == 3, // the finish rules do not depend on how the WARC writer is awaited
 		}
 		out = append(out, c01Scenario{Seed: r.Seed, Index: i, Cfg: cfg, NSeeds: 24 + rng.Intn(16), NHubs: 1 + rng.Intn(2), Perturb: i % 3})
 	}
